@@ -3,11 +3,13 @@ import PyomaVerif.Ops.C12
 import PyomaVerif.Ops.C09
 import PyomaVerif.Ops.C02
 import PyomaVerif.Ops.C01
+import PyomaVerif.Ops.C16
+import PyomaVerif.Ops.C20
 /-! Line-protocol driver: one JSON object per line in, one JSON value per line out. -/
 open Lean PV PV.Codec
 
 def allOps : List (String × (Json → Except String Json)) :=
-  PV.Ops.C12.ops ++ PV.Ops.C09.ops ++ PV.Ops.C02.ops ++ PV.Ops.C01.ops
+  PV.Ops.C12.ops ++ PV.Ops.C09.ops ++ PV.Ops.C02.ops ++ PV.Ops.C01.ops ++ PV.Ops.C16.ops ++ PV.Ops.C20.ops
 
 def handle (line : String) : String :=
   match Json.parse line with
